@@ -11,6 +11,7 @@ import DdnnfVerif.Proofs.LoadSem
 import DdnnfVerif.Proofs.LoadWF2_14
 import DdnnfVerif.Proofs.D4Conv
 import DdnnfVerif.Proofs.Lex
+import DdnnfVerif.Proofs.LoadAll
 namespace Ddnnf.C01
 
 /-- The reported count (`Ddnnf::rc()` = count of the last node) is the number of assignments to
@@ -156,5 +157,36 @@ theorem d4_text_in_normal_form_lexes_to_its_lines (ls : List (D4.Line × Nat))
     (h : ∀ p ∈ ls, Lex.LineInRange p.1) :
     Lex.parseD4Text (ls.map fun p => Lex.renderD4 p.1 p.2) = some (ls.map (·.1)) :=
   Lex.parseD4Text_render ls h
+
+/-! ### every structural hypothesis of the other property theorems, for loaded arrays
+
+The theorems of C02–C08, C16, C20 assume `WF`, `LitUnique` (no literal in two leaves) and, for the
+scratch-state theorems, `MS.HasParents` (every node but the root is a child of a later node) of the
+node array.  For the arrays the d4 loader builds these are theorems, not per-input checks: -/
+
+/-- no literal occurs in two leaves of a loaded array — for every text that declares no literal nodes -/
+theorem d4_loaded_array_has_unique_literal_leaves (lines : List D4.Line) (total : Nat)
+    (hdecl : ∀ l, D4.Line.node (.lit l) ∉ lines) : LitUnique (D4.load lines total).2.1 :=
+  D4.load_litUnique' lines total hdecl
+
+/-- every node of a loaded array except the root has a parent — for every acyclic, satisfiable text
+without literal 0 in which only and/or nodes have out-edges (`D4.SrcInner`; the two machine-checked
+counterexamples `D4.hasParents_needs_srcInner` / `D4.hasParents_needs_sat` show that neither condition
+can be dropped: an edge leaving a `t` node, resp. an unsatisfiable text whose root is eliminated, leave
+a node without parent) -/
+theorem d4_loaded_array_has_parents (lines : List D4.Line) (total : Nat)
+    (hnode : ∃ k, D4.Line.node k ∈ lines) (r : Nat → Nat)
+    (hacyc : D4.Acyclic (D4.phase1 lines total).g r) (hsrc : D4.SrcInner (D4.phase1 lines total).g)
+    (hnz : D4.LitNZ (D4.phase1 lines total).g) (hok : (D4.load lines total).2.2 = false)
+    (hsat : ∃ σ, D4.sem σ (D4.phase1 lines total).g r 0 = true) :
+    MS.HasParents (D4.load lines total).2.1 :=
+  D4.load_hasParents lines total hnode r hacyc hsrc hnz hok hsat
+
+/-- all three from the executable check (`D4.conventions2B` = the conventions + `SrcInner`) -/
+theorem d4_conventions_check_gives_every_structural_hypothesis (lines : List D4.Line) (total : Nat)
+    (h : D4.conventions2B lines total = true) :
+    WF (D4.load lines total).2.1 (D4.load lines total).1 ∧ LitUnique (D4.load lines total).2.1 ∧
+      MS.HasParents (D4.load lines total).2.1 :=
+  D4.conventions2B_sound lines total h
 
 end Ddnnf.C01
